@@ -89,6 +89,9 @@ def step (st : St) (line : String) : St × String :=
     | _ => (ws, false)
   match ws with
   | ["start", kind, t, cf, minRate, factor, step0, cur, pot] =>
+    -- a data set with a cost on a rounding tie of `RoundFloat(cost, 2)` is decided by Go's last float bit: the run is
+    -- judged Go against Go (direct clauses of the suite) and not by this oracle
+    if st.c.D.acts.any Driver.Catchment.costTie then (st, "BOUNDARY") else
     match parseF t, parseF cf, minRate.toNat?, parseF factor, step0.toNat?,
           Driver.Catchment.parseBits cur, Driver.Catchment.parseBits pot with
     | some t, some cf, some mr, some f, some s0, some cb, some pb =>
